@@ -2361,9 +2361,11 @@ ure_exec(ure_dfa_t dfa, int flags, ucs2_t *text, unsigned long textlen,
 	/*
 	 * This ugly hack is to make sure the end-of-line anchors
 	 * match when the source text hits the end.  This is only done
-	 * if the last subexpression matches.
+	 * if the last subexpression matches, and not when the caller
+	 * says that the text does not end at the end of a line.
 	 */
-	for (i = 0; found == 0 && i < stp->ntrans; i++) {
+	for (i = 0; found == 0 && !(flags & URE_NOTEOL)
+	       && i < stp->ntrans; i++) {
 	  sym = dfa->syms + stp->trans[i].symbol;
 	  if (sym->type ==_URE_EOL_ANCHOR) {
 	    stp = dfa->states + stp->trans[i].next_state;
